@@ -170,6 +170,53 @@ func c09Family(thorough bool) []*c09Case {
 			add("project", &project{Root: r, Types: map[string]string{"@t": tt, "@a": `1`}}, "")
 		}
 	}
+	// recursion through `or` lists that mix inline rule-sets (unnamed types) and names
+	for _, tu := range []string{`5 // {or: [{type: "integer"}, "@u"]}`, `5 // {or: ["@u", {type: "integer"}]}`, `5 // {or: [{type: "integer"}, {type: "@u"}]}`,
+		`5 // {or: [{type: "integer"}, "@v"]}`, "{\n\t\"k\": 1 // {or: [{type: \"integer\"}, \"@u\"]}\n}", `@v | @u`, `5 // {or: [{type: "string"}, {type: "integer"}, "@v"]}`} {
+		for _, r := range []string{`@u`, "{\n\t\"x\": @u\n}", `1 // {type: "@u"}`, `@v`, `1 // {or: [{type: "string"}, "@u"]}`} {
+			add("project", &project{Root: r, Types: map[string]string{"@u": tu, "@v": `@u`}}, "")
+		}
+	}
+	// types that carry their own type tables: agreeing, conflicting with each other,
+	// conflicting with the root's registration, and the meshed catalogue
+	for _, r := range []string{"{\n\t\"x\": @t1,\n\t\"y\": @t2,\n\t\"z\": @inner\n}", "{\n\t\"x\": @t1,\n\t\"y\": @t2\n}", `@t1`} {
+		for _, t1 := range []string{`@inner`, "{\n\t\"i\": @inner\n}", `1 // {or: [{type: "@inner"}, {type: "string"}]}`} {
+			for ni, nest := range []map[string]map[string]string{
+				{"@t1": {"@inner": `"str"`}, "@t2": {"@inner": `"str"`}},
+				{"@t1": {"@inner": `"str"`}, "@t2": {"@inner": `true`}},
+				{"@t1": {"@inner": `"str"`}},
+				{"@t1": {"@inner": `5 // {or: [{type: "integer"}, {type: "string"}]}`}, "@t2": {"@inner": `7 // {or: [{type: "integer", min: 6}, {type: "string"}]}`}},
+				{"@t1": {"@inner": `@deep`, "@deep": `1`}, "@t2": {"@inner": `@deep`, "@deep": `"d"`}},
+			} {
+				for _, own := range []string{"", `1`} {
+					ts := map[string]string{"@t1": t1, "@t2": `@inner`}
+					if own != "" {
+						ts["@inner"] = own
+					}
+					if !thorough && ni >= 3 && own != "" {
+						continue
+					}
+					add("project", &project{Root: r, Types: ts, Nested: nest}, "")
+				}
+			}
+		}
+	}
+	for _, r := range []string{`@a`, "{\n\t\"k\": @b,\n\t\"m\": @c\n}", "{} // {allOf: [\"@a\", \"@b\"]}"} {
+		for _, a := range []string{"{\n\t\"k\": @b\n}", "{ // {allOf: \"@b\"}\n\t\"a\": 5 // {or: [{type: \"integer\"}, {type: \"@c\"}]}\n}", `@b | @c`} {
+			for _, b := range []string{"{\n\t\"kb\": @c\n}", "{\n\t\"kb\": 1, // {or: [{type: \"@c\"}, {type: \"integer\"}]}\n\t\"back\": @a // {optional: true}\n}"} {
+				add("project", &project{Root: r, Types: map[string]string{"@a": a, "@b": b, "@c": `"c"`}, Mesh: true}, "")
+			}
+		}
+	}
+	// type bodies filed under one name: whatever identifies an unnamed type must
+	// not depend on the file name and offset alone
+	for _, r := range []string{"{\n\t\"a\": @a,\n\t\"b\": @b\n}", `@a | @b`, `@b`} {
+		for _, b := range []string{`7 // {or: [{type: "integer", min: 6}, {type: "string"}]}`, `7 // {or: [{type: "integer"}, {type: "string"}]}`, `"s" // {or: [{type: "integer", min: 6}, {type: "string"}]}`, `@c | @a`} {
+			for _, a := range []string{`5 // {or: [{type: "integer"}, {type: "string"}]}`, `@a2 | @c`} {
+				add("project", &project{Root: r, Types: map[string]string{"@a": a, "@b": b, "@c": `true`, "@a2": `2`}, TypeFile: "types.jst"}, "")
+			}
+		}
+	}
 	// string formats, banned-rule conflicts, enum rules with dotted strings
 	for _, r := range []string{
 		`"a@b.cc" // {type: "email", minLength: 1, regex: "a"}`, `"a@b.cc" // {type: "email", regex: "a", minLength: 1}`,
